@@ -50,6 +50,9 @@ struct VRow {
 struct Enc {
     gz: bool,
     crlf: bool,
+    /// classic-Mac line endings: a lone carriage return ends a record (the csv reader accepts it,
+    /// `BufRead::lines` does not see a line end)
+    cr_only: bool,
     final_newline: bool,
     trailing_blank: usize,
     /// order of the columns: indices < n_named are the named columns, the others are extras
@@ -59,6 +62,9 @@ struct Enc {
     quote: bool,
     /// named column left out of the file (header and rows)
     drop_col: Option<usize>,
+    /// the file name says the opposite of the content: `.gz` on plain text, or no `.gz` on gzip data
+    /// (`read_utils` looks at the magic bytes, `graph_loader::get_n_*` at the extension)
+    misnamed: bool,
     /// the file is not written at all
     absent: bool,
     /// the file is written with no content at all (not even a header)
@@ -70,6 +76,7 @@ impl Enc {
         Enc {
             gz: false,
             crlf: false,
+            cr_only: false,
             final_newline: true,
             trailing_blank: 0,
             order: (0..n_named).collect(),
@@ -77,6 +84,7 @@ impl Enc {
             pad: false,
             quote: false,
             drop_col: None,
+            misnamed: false,
             absent: false,
             empty: false,
         }
@@ -90,6 +98,7 @@ impl Enc {
         Enc {
             gz: rng.chance(1, 2),
             crlf: rng.chance(1, 6),
+            cr_only: false,
             final_newline: !rng.chance(1, 6),
             trailing_blank: if rng.chance(1, 10) { 1 + rng.below(2) } else { 0 },
             order,
@@ -97,15 +106,16 @@ impl Enc {
             pad: rng.chance(1, 5),
             quote: rng.chance(1, 5),
             drop_col: None,
+            misnamed: false,
             absent: false,
             empty: false,
         }
     }
     fn descr(&self) -> String {
         format!(
-            "{}{}{}b{}o{}x{}{}{}{}{}{}",
+            "{}{}{}b{}o{}x{}{}{}{}{}{}{}",
             if self.gz { "gz" } else { "pl" },
-            if self.crlf { "C" } else { "L" },
+            if self.cr_only { "R" } else if self.crlf { "C" } else { "L" },
             if self.final_newline { "N" } else { "n" },
             self.trailing_blank,
             self.order.iter().map(|c| c.to_string()).collect::<Vec<_>>().join(""),
@@ -118,6 +128,7 @@ impl Enc {
             },
             if self.absent { "A" } else { "" },
             if self.empty { "E" } else { "" },
+            if self.misnamed { "M" } else { "" },
         )
     }
 }
@@ -127,7 +138,8 @@ const V_COLS: [&str; 3] = ["vertex_id", "x", "y"];
 const EXTRA_NAMES: [&str; 4] = ["name", "z", "road_class", "comment"];
 
 fn extra_cell(rng: &mut Rng) -> String {
-    match rng.below(6) {
+    match rng.below(7) {
+        6 => "\"two\nlines\"".to_string(),
         0 => String::new(),
         1 => format!("{}", rng.below(1000)),
         2 => format!("{:.3}", rng.uniform(-500.0, 500.0)),
@@ -142,7 +154,7 @@ fn render(rng: &mut Rng, cols: &[&str], rows: &[(Vec<String>, bool)], enc: &Enc)
     if enc.empty {
         return String::new();
     }
-    let nl = if enc.crlf { "\r\n" } else { "\n" };
+    let nl = if enc.cr_only { "\r" } else if enc.crlf { "\r\n" } else { "\n" };
     let n_named = cols.len();
     let mut lines: Vec<String> = vec![];
     let keep = |c: usize| -> bool { !(c < n_named && Some(c) == enc.drop_col) };
@@ -257,6 +269,10 @@ impl Case {
             && !self.v_enc.absent
             && !self.e_enc.empty
             && !self.v_enc.empty
+            && !self.e_enc.cr_only
+            && !self.v_enc.cr_only
+            && !self.e_enc.misnamed
+            && !self.v_enc.misnamed
             && self.n_v.map(|n| n == nv).unwrap_or(true)
     }
 }
@@ -283,8 +299,10 @@ fn write_case(dir: &Path, tag: &str, rng_seed: &Rng, case: &Case, e_gz: bool, v_
     let v_rows: Vec<(Vec<String>, bool)> = case.vertices.iter().map(v_cells).collect();
     let e_text = render(&mut rng, &E_COLS, &e_rows, &case.e_enc);
     let v_text = render(&mut rng, &V_COLS, &v_rows, &case.v_enc);
-    let e_path = dir.join(format!("{}_edges.csv{}", tag, if e_gz { ".gz" } else { "" }));
-    let v_path = dir.join(format!("{}_vertices.csv{}", tag, if v_gz { ".gz" } else { "" }));
+    let e_name_gz = e_gz != case.e_enc.misnamed;
+    let v_name_gz = v_gz != case.v_enc.misnamed;
+    let e_path = dir.join(format!("{}_edges.csv{}", tag, if e_name_gz { ".gz" } else { "" }));
+    let v_path = dir.join(format!("{}_vertices.csv{}", tag, if v_name_gz { ".gz" } else { "" }));
     let _ = std::fs::remove_file(&e_path);
     let _ = std::fs::remove_file(&v_path);
     if !case.e_enc.absent {
@@ -293,7 +311,30 @@ fn write_case(dir: &Path, tag: &str, rng_seed: &Rng, case: &Case, e_gz: bool, v_
     if !case.v_enc.absent {
         write_file(&v_path, &v_text, v_gz);
     }
-    Written { e_path, v_path, e_lines: text_lines(&e_text), v_lines: text_lines(&v_text) }
+    let e_lines = if case.e_enc.misnamed && !case.e_enc.absent { misnamed_lines(&e_path, e_gz) } else { text_lines(&e_text) };
+    let v_lines = if case.v_enc.misnamed && !case.v_enc.absent { misnamed_lines(&v_path, v_gz) } else { text_lines(&v_text) };
+    Written { e_path, v_path, e_lines, v_lines }
+}
+
+/// the line count seen when the name and the content of a file disagree about compression.
+/// gzip data under a plain name: the newline bytes of the *compressed* stream (computed here from the
+/// bytes).  Plain text under a `.gz` name: whatever the gzip decoder makes of it — taken from the real
+/// `fs_utils::line_count` (decoding is not modelled; the model receives the count as data).
+fn misnamed_lines(path: &Path, content_gz: bool) -> usize {
+    if content_gz {
+        let bytes = std::fs::read(path).expect("read back");
+        if bytes.is_empty() {
+            return 0;
+        }
+        let n = bytes.split(|b| *b == b'\n').count();
+        if bytes.last() == Some(&b'\n') {
+            n - 1
+        } else {
+            n
+        }
+    } else {
+        routee_compass_core::util::fs::fs_utils::line_count(path, true).unwrap_or(0)
+    }
 }
 
 fn case_line(case: &Case, w: &Written) -> String {
@@ -655,7 +696,7 @@ fn gen_well_formed(rng: &mut Rng, big: bool) -> Case {
     Case { kind: "wf", n_e, n_v, e_enc: Enc::random(rng, 4, true), v_enc: Enc::random(rng, 3, true), edges, vertices }
 }
 
-const MALFORMED: [&str; 16] = [
+const MALFORMED: [&str; 18] = [
     "edge-id-permuted",
     "edge-id-offset",
     "edge-id-duplicate",
@@ -672,6 +713,8 @@ const MALFORMED: [&str; 16] = [
     "missing-file",
     "empty-file",
     "fewer-vertex-rows",
+    "cr-line-endings",
+    "compression-misnamed",
 ];
 
 fn bad_text(rng: &mut Rng, col_is_float: bool) -> String {
@@ -797,6 +840,33 @@ fn gen_malformed(rng: &mut Rng, which: &'static str) -> Case {
                 c.e_enc.empty = true;
             } else {
                 c.v_enc.empty = true;
+            }
+        }
+        "cr-line-endings" => {
+            // the rows are fine; only the line terminator is a lone CR (no embedded LF in extra cells)
+            c.e_enc.n_extra = 0;
+            c.e_enc.order = (0..4).collect();
+            c.v_enc.n_extra = 0;
+            c.v_enc.order = (0..3).collect();
+            c.e_enc.crlf = false;
+            c.v_enc.crlf = false;
+            match rng.below(3) {
+                0 => c.e_enc.cr_only = true,
+                1 => c.v_enc.cr_only = true,
+                _ => {
+                    c.e_enc.cr_only = true;
+                    c.v_enc.cr_only = true;
+                }
+            }
+        }
+        "compression-misnamed" => {
+            match rng.below(3) {
+                0 => c.e_enc.misnamed = true,
+                1 => c.v_enc.misnamed = true,
+                _ => {
+                    c.e_enc.misnamed = true;
+                    c.v_enc.misnamed = true;
+                }
             }
         }
         "fewer-vertex-rows" => {
@@ -932,6 +1002,31 @@ fn corpus() -> Vec<Case> {
         e_enc: Enc::plain(4),
         v_enc: Enc::plain(3),
     });
+    // W6: a well-formed vertex file with classic-Mac (lone CR) line endings and a scanned vertex count
+    let mut cr = Enc::plain(3);
+    cr.cr_only = true;
+    out.push(Case {
+        kind: "cr-line-endings",
+        edges: vec![e(0, 0, 1, 7.0), e(1, 1, 0, 9.0)],
+        vertices: grid_vertices(2),
+        n_e: None,
+        n_v: None,
+        e_enc: Enc::plain(4),
+        v_enc: cr,
+    });
+    // W7: a gzip-compressed vertex file that is not named *.gz, scanned vertex count
+    let mut mis = Enc::plain(3);
+    mis.gz = true;
+    mis.misnamed = true;
+    out.push(Case {
+        kind: "compression-misnamed",
+        edges: vec![e(0, 0, 1, 7.0), e(1, 1, 0, 9.0)],
+        vertices: grid_vertices(2),
+        n_e: None,
+        n_v: None,
+        e_enc: Enc::plain(4),
+        v_enc: mis,
+    });
     // --- error kinds ---
     let base = Case {
         kind: "wf",
@@ -984,7 +1079,11 @@ fn degree_bucket(d: usize) -> &'static str {
 fn finding_key(case: &Case, edges: &[ERow], vertices: &[VRow]) -> &'static str {
     let nv = vertices.len();
     let table = case.n_v.unwrap_or(nv); // scanned count is at least the number of rows
-    if edges.iter().enumerate().any(|(i, r)| r.id != i) {
+    if case.e_enc.cr_only || case.v_enc.cr_only {
+        "graph_loader/scan-misses-cr-line-endings"
+    } else if case.e_enc.misnamed || case.v_enc.misnamed {
+        "graph_loader/scan-decides-gzip-by-extension"
+    } else if edges.iter().enumerate().any(|(i, r)| r.id != i) {
         "graph_loader/edge-id-not-row-accepted"
     } else if vertices.iter().enumerate().any(|(i, r)| r.id != i) {
         "graph_loader/vertex-id-not-row-accepted"
@@ -1245,7 +1344,7 @@ pub fn run(ctx: &mut Ctx) -> &'static str {
         let rng = Rng::for_case(ctx.seed, 15, idx as u64);
         run_load_case(ctx, idx, &dir, &case, &rng);
     }
-    let n_wf = ctx.n(260, 4000);
+    let n_wf = ctx.n(1500, 24000);
     for k in 0..n_wf {
         let Some(idx) = ctx.begin() else { continue };
         let mut rng = Rng::for_case(ctx.seed, 15, idx as u64);
@@ -1253,19 +1352,19 @@ pub fn run(ctx: &mut Ctx) -> &'static str {
         let case = gen_well_formed(&mut rng, big);
         run_load_case(ctx, idx, &dir, &case, &rng);
     }
-    let n_mal = ctx.n(96, 1600);
+    let n_mal = ctx.n(540, 7200);
     for k in 0..n_mal {
         let Some(idx) = ctx.begin() else { continue };
         let mut rng = Rng::for_case(ctx.seed, 15, idx as u64);
         let case = gen_malformed(&mut rng, MALFORMED[k % MALFORMED.len()]);
         run_load_case(ctx, idx, &dir, &case, &rng);
     }
-    let n_tab = ctx.n(40, 400);
+    let n_tab = ctx.n(160, 2000);
     for k in 0..n_tab {
         let Some(idx) = ctx.begin() else { continue };
         let mut rng = Rng::for_case(ctx.seed, 15, idx as u64);
         run_table_case(ctx, idx, &dir, &mut rng, k % 4);
     }
     let _ = std::fs::remove_dir_all(&dir);
-    "edge/vertex CSV files written by the harness (plain and gzip; permuted and extra columns in both files, padding, quoting, CRLF, missing final newline, trailing blank lines; vertex degrees 0-12 and above, parallel edges, self loops, isolated vertices; explicit and scanned counts) loaded with the real Graph::from_files, every accessor printed for every edge/vertex id and one id beyond each range; 16 kinds of malformed input (ids not row numbers, endpoints without vertex, wrong declared counts, missing column, undecodable cell, short row, missing or empty file); per-edge tables (speed, grade, road class, heading) read by the real readers; non-trivial = a network with at least one edge, a malformed input, or a table; distinct by full case text"
+    "edge/vertex CSV files written by the harness (plain and gzip; permuted and extra columns in both files, padding, quoting, CRLF, missing final newline, trailing blank lines; vertex degrees 0-12 and above, parallel edges, self loops, isolated vertices; explicit and scanned counts) loaded with the real Graph::from_files, every accessor printed for every edge/vertex id and one id beyond each range; 18 kinds of malformed input (ids not row numbers, endpoints without vertex, wrong declared counts, missing column, undecodable cell, short row, missing or empty file, lone-CR line endings, compression not matching the file name); per-edge tables (speed, grade, road class, heading) read by the real readers; non-trivial = a network with at least one edge, a malformed input, or a table; distinct by full case text"
 }
